@@ -36,6 +36,11 @@ add("lk_3b", ["C01", "C02"], "t", progs=[P("L", "U", "L", "U"), P("R", "RU"), P(
 add("lk_3c", ["C01", "C02"], "t", progs=[P("R", "RU", "R", "RU"), P("L", "U"), P("R", "RU")], NV=1)
 add("lk_3t", ["C01", "C02"], "t", progs=[P("L", "U"), P("T", "RT"), P("R", "RU", "T")], NV=1)
 add("lk_w3", ["C02"], "t", progs=[P("L", "U", "L", "U", "L", "U"), P("L", "U", "R", "RU", "L", "U")], NV=1)
+# binary semaphore flavour (V sets the count to 1): link variant h_mub, Binary=TRUE in Mu.tla
+add("bin_wr", ["C01", "C02"], "q", progs=[P("L", "U", "L", "U"), P("R", "RU", "L", "U")], NV=1, Binary=True)
+add("bin_3", ["C02"], "q", progs=[P("L", "U"), P("R", "RU"), P("L", "U")], NV=1, Binary=True)
+add("bin_cv", ["C01", "C04"], "q", progs=[P("L", cvl(v=1, dl=1), "U"), P("L", "set11", "S", "U")], NV=1, MaxNow=1, Binary=True)
+add("bin_mw", ["C06", "C02"], "q", progs=[P("L", mwt(1, dl=1), "U"), P("L", "set11", "U")], NV=1, conds=C1, MaxNow=1, Binary=True)
 # ---- condition variables (C01 C04 C05 C13) ----
 add("cv_sig_in", ["C04", "C01"], "q", progs=[P("L", cvl(v=1), "U"), P("L", "set11", "S", "U")], NV=1)
 add("cv_sig_after", ["C04", "C13"], "q", progs=[P("L", cvl(v=1), "U"), P("L", "set11", "U", "S")], NV=1)
